@@ -79,6 +79,20 @@ Fixpoint prefixb (a b : list nat) : bool :=
   | _ :: _, [] => false
   end.
 
+(* same values with the same multiplicities (order is clause 2's business) *)
+Fixpoint remove1 (x : nat) (l : list nat) : option (list nat) :=
+  match l with
+  | [] => None
+  | y :: r => if x =? y then Some r
+              else match remove1 x r with Some r' => Some (y :: r') | None => None end
+  end.
+
+Fixpoint same_bag (a b : list nat) : bool :=
+  match a with
+  | [] => match b with [] => true | _ => false end
+  | x :: a' => match remove1 x b with Some b' => same_bag a' b' | None => false end
+  end.
+
 Fixpoint before_leave (e : list oevent) : list oevent :=
   match e with
   | [] => []
@@ -112,7 +126,7 @@ Definition check_stream (dead : bool) (t : strace) : list nat :=
   clause 2 (forallb (fun c => prefixb (received_on c e) (emitted_on c e)) chans) ++
   if dead then [] else     (* a dead process shows nothing further: clause 1 reports it *)
   (if negb (left_in e) && service_ended e then
-     clause 3 (forallb (fun c => list_eqb Nat.eqb (received_on c e) (emitted_on c e)) (handed_out e) &&
+     clause 3 (forallb (fun c => same_bag (received_on c e) (emitted_on c e)) (handed_out e) &&
                got_normal_close e)
    else []) ++
   (if client_left_first e then
